@@ -1,8 +1,8 @@
 (* C01 - Control flow and variables determine exactly which rows run, and in what order.
    SPEC: StmtSpec.exec (the sequential reading).  MODEL: Stmt.next (StmtIterator::next_with_context)
    driven to the end.  Property theorems only; proofs in proofs/StmtRefine.v, StmtCorollaries.v. *)
-From DTR Require Import Prelude I64 Ast FramedMap Parser Bind Eval Stmt StmtSpec Iter.
-From DTR.proofs Require Import FramedMapProof StmtRefine StmtCorollaries.
+From DTR Require Import Prelude I64 Ast FramedMap Parser Bind Eval Stmt StmtSpec Iter ExpandSpec WfSpec RunSpec.
+From DTR.proofs Require Import FramedMapProof StmtRefine StmtCorollaries IterLogProof NoPanicProof RunRefine.
 Local Open Scope Z_scope.
 
 (* For EVERY program, context, evaluation functions and row handler (the handler stands for all
@@ -45,6 +45,31 @@ Theorem C01_concrete : forall (G : gen) (H : Type) (handler : H -> list dentry *
   cexec G H handler fuel prog c h = o -> o <> OutOfFuel ->
   exists fuel', cdrain G H handler fuel' (SI prog Iterate) c h = o.
 Proof. exact concrete_iterator_refines. Qed.
+
+(* THEOREM T - the whole iterator (constructor state, get_row with its cache and re-expansion, the statement iterator, one driver call per next) against the sequential reading of RunSpec.v: whatever the first n calls of next() yield - rows with all entries, error items, the final None - and whatever calls the driver received, is what the sequential reading of the program yields with the row handler "expand per ExpandSpec, one call per expanded row, stop when the caller's n calls are used up". For every program, driver, generator, n. *)
+Theorem C01_run_is_the_sequential_reading :
+ forall (G : gen) (DE : Type) (D : driver DE) (w_default : bool) (tc : testcase) 
+ (fuel n : nat) (st0 : istate) (items : list (item_view DE)) (st' : istate),
+ try_new DE D tc = NewOk DE st0 ->
+ (n >= 1)%nat ->
+ collect G DE D w_default tc fuel n st0 = (items, Some st') ->
+ exists (fuel' : nat) (sn : list (seen DE)) (lg : list call),
+ seen_of DE (run_spec G DE D w_default tc fuel' n st0) = Some (sn, lg) /\
+ items = map view_of_seen sn /\ i_log st' = lg.
+Proof. exact T_run_refines_sequential_reading. Qed.
+
+(* ... and conversely (wf_tc excludes model panics; it holds for every accepted test, C11) *)
+Theorem C01_sequential_reading_is_the_run :
+ forall (G : gen) (DE : Type) (D : driver DE) (w_default : bool) (tc : testcase) (width : nat),
+ wf_tc tc width ->
+ forall (fuel' n : nat) (st0 : istate) (sn : list (seen DE)) (lg : list call),
+ try_new DE D tc = NewOk DE st0 ->
+ (n >= 1)%nat ->
+ seen_of DE (run_spec G DE D w_default tc fuel' n st0) = Some (sn, lg) ->
+ exists (fuel : nat) (st' : istate),
+ collect G DE D w_default tc fuel n st0 = (map view_of_seen sn, Some st') /\ i_log st' = lg.
+Proof. exact T_sequential_reading_refines_run. Qed.
+
 
 (* not at all when n <= 0 *)
 Theorem C01_loop_not_entered_when_bound_not_positive :
@@ -95,3 +120,5 @@ Proof. eexists. vm_compute. reflexivity. Qed.
 
 Print Assumptions C01_iterator_refines_sequential_reading.
 Print Assumptions C01_sequential_reading_refines_iterator.
+Print Assumptions C01_run_is_the_sequential_reading.
+Print Assumptions C01_sequential_reading_is_the_run.
